@@ -100,7 +100,32 @@ struct StModel {
   const bj::object* expected_ = nullptr;
   void set_expected(const bj::object& o) { expected_ = &o; }
 
+  // Operations must not depend on whether a VALID filtration cache is alive when they are called (the cache only has
+  // to be refreshed by the user AFTER a modification): with VF_LIVE_CACHE=1 every operation is also run on two copies of
+  // the tree whose cache was just computed - once over all simplices, once ignoring infinite values - and the returned
+  // value and the resulting tree must be the same as without cache.
   bj::object apply(const bj::object& act) {
+    static const bool live = [] { const char* e = std::getenv("VF_LIVE_CACHE"); return e && std::string(e) == "1"; }();
+    if constexpr (Options::store_filtration) {
+      if (live) {
+        std::string with_cache[2];
+        StModel twin[2];
+        for (int k = 0; k < 2; ++k) {
+          twin[k].st = st;
+          twin[k].st.initialize_filtration(k == 1);
+          with_cache[k] = ser(bj::value(twin[k].apply_core(act)));
+        }
+        bj::object out = apply_core(act);
+        for (int k = 0; k < 2; ++k)
+          if (with_cache[k] != ser(bj::value(out)) || !(twin[k].st == st))
+            out["exception"] = std::string("the operation behaves differently when a valid filtration cache (") +
+                               (k ? "ignoring infinite values" : "all simplices") + ") is alive";
+        return out;
+      }
+    }
+    return apply_core(act);
+  }
+  bj::object apply_core(const bj::object& act) {
     std::string op(act.at("op").as_string());
     bj::object out;
     auto insret = [&](std::pair<SH, bool> r) {
